@@ -227,13 +227,14 @@ def run(ctx, rep):
     else:
         d = Deps(F32)
         reads = [b for b, t in F32.calls() if (t.get('callee') or '').endswith('::get_raw')]
-        ok = False
-        for b, t in F32.calls():
-            if (t.get('callee') or '').endswith('::set_raw'):
-                toks = d.of_operand(t['args'][-1])
-                if any(('callsite', r) in toks for r in reads) and ('const', 0xF0000000) in toks and \
-                        ('op', 'BitAnd') in toks and ('op', 'BitOr') in toks:
-                    ok = True
+        # every store of Fat32::set (not just one of them) carries the old reserved bits
+        stores = [(b, t) for b, t in F32.calls() if (t.get('callee') or '').endswith('::set_raw')]
+        ok = bool(stores)
+        for b, t in stores:
+            toks = d.of_operand(t['args'][-1])
+            if not (any(('callsite', r) in toks for r in reads) and ('const', 0xF0000000) in toks and
+                    ('op', 'BitAnd') in toks and ('op', 'BitOr') in toks):
+                ok = False
         rep.oblige('X4', F32.name, ok=ok, nontrivial=True)
         if not ok:
             rep.violation('X4', vkey('X4', F32.name, 'reserved-bits', ''), F32.loc(F32.span),
@@ -245,12 +246,12 @@ def run(ctx, rep):
     else:
         d = Deps(F12)
         reads = [b for b, t in F12.calls() if (t.get('callee') or '').endswith('read_u16_le')]
-        ok = False
-        for b, t in F12.calls():
-            if (t.get('callee') or '').endswith('write_u16_le'):
-                toks = d.of_operand(t['args'][-1])
-                if any(('callsite', r) in toks for r in reads) and ('const', 0xF000) in toks and ('const', 0x000F) in toks:
-                    ok = True
+        stores = [(b, t) for b, t in F12.calls() if (t.get('callee') or '').endswith('write_u16_le')]
+        ok = bool(stores)
+        for b, t in stores:
+            toks = d.of_operand(t['args'][-1])
+            if not (any(('callsite', r) in toks for r in reads) and ('const', 0xF000) in toks and ('const', 0x000F) in toks):
+                ok = False
         rep.oblige('X4', F12.name, ok=ok, nontrivial=True)
         if not ok:
             rep.violation('X4', vkey('X4', F12.name, 'neighbour-nibble', ''), F12.loc(F12.span),
